@@ -56,9 +56,11 @@ fn lap(ctx: &mut Ctx, what: &str, t0: f64) {
 fn miri_slice(ctx: &mut Ctx, _args: &Args) {
     ctx.level = "exploration".into();
     ctx.assumptions.push("Miri slice: single-threaded interpretation (-Zmiri-symbolic-alignment-check) of a few hundred operations per element type; the value oracles are those of the full workload".into());
-    let steps: usize = std::env::var("VF_MIRI_STEPS").ok().and_then(|s| s.parse().ok()).unwrap_or(ctx.tier.pick(40, 160));
+    // Miri interprets this crate (unoptimised, model and library alike) ~10^4..10^5 times slower than the
+    // strict build runs it: one history step with all its observers costs ~1 s.
+    let steps: usize = std::env::var("VF_MIRI_STEPS").ok().and_then(|s| s.parse().ok()).unwrap_or(ctx.tier.pick(16, 150));
     {
-        let ex2 = [0b00001110u8, 0b00100001, 0b00010001, 0b00000001, 0b00000100, 0b00000010, 0b00001000];
+        let ex2 = ex_bytes();
         let ok2 = matches!(codec::ref_decode(&ex2, 0, u32::MAX), codec::RefOut::Ok{ref members, consumed: 7, ..} if *members == Iv::from_points([2, 33, 323]));
         if !ok2 {
             ctx.inconclusive("reference sparse-bit-set decoder fails the specification example 2");
@@ -67,26 +69,31 @@ fn miri_slice(ctx: &mut Ctx, _args: &Args) {
         ctx.count("codec:reference_decoder_spec_examples_ok", 1);
     }
     let mut codec = Codec::new(1);
-    // 1. random histories, one per element type (page arithmetic differs per domain width)
-    rnd::<u32>(ctx, &mut codec, 1, steps);
-    rnd::<u16>(ctx, &mut codec, 1, steps);
-    rnd::<u8>(ctx, &mut codec, 1, steps / 2);
-    rnd::<GlyphId>(ctx, &mut codec, 1, steps / 2);
-    rnd::<GlyphId16>(ctx, &mut codec, 1, steps / 2);
-    rnd::<Tag>(ctx, &mut codec, 1, steps / 2);
-    rnd::<NameId>(ctx, &mut codec, 1, steps / 2);
-    rnd::<Cont>(ctx, &mut codec, 1, steps / 2);
-    rnd::<Disc10>(ctx, &mut codec, 1, steps / 2);
+    // 1. random histories, one per element type (page arithmetic differs per domain width), through the
+    //    same `Runner::step` (library + models + every observer) as the full workload but with small
+    //    iteration windows, no periodic "deep" check and a codec round trip only of small final sets
+    light::<u32>(ctx, &mut codec, steps);
+    light::<u16>(ctx, &mut codec, steps * 2 / 3);
+    light::<GlyphId16>(ctx, &mut codec, steps / 3);
+    light::<Tag>(ctx, &mut codec, steps / 3);
+    light::<GlyphId>(ctx, &mut codec, steps / 4);
+    light::<NameId>(ctx, &mut codec, steps / 4);
+    light::<u8>(ctx, &mut codec, steps / 4);
+    light::<Disc10>(ctx, &mut codec, steps / 4);
+    if ctx.tier.is_thorough() {
+        light::<Cont>(ctx, &mut codec, steps / 8);
+        light::<Disc53>(ctx, &mut codec, steps / 8);
+    }
     // 2. codec: round trips of small subsets, generated corner-case sets, decoding of arbitrary bytes
     let t0 = ctx.elapsed_s();
     let mut rng = Rng::derive(ctx.seed, "c14-miri", 0);
-    for _ in 0..ctx.tier.pick(6, 24) {
+    for _ in 0..ctx.tier.pick(2, 16) {
         let bits = rng.below(65536) as u32;
         let m = Iv::from_points((0..16).filter(|i| bits >> i & 1 == 1));
         let s: IntSet<u32> = m.iter().collect();
         codec.roundtrip(ctx, &s, &m, &format!("subset16:{:04x}", bits));
     }
-    for i in 0..ctx.tier.pick(3, 12) {
+    for i in 0..ctx.tier.pick(2, 8) {
         // sparse hand-made sets around page and word boundaries (gen_codec_set may produce sets too large for Miri)
         let base = [0u32, 500, 65_530, 1 << 24][i % 4];
         let m = Iv::from_points((0..(3 + rng.below(6))).map(|_| base + rng.below(70) as u32).collect::<Vec<_>>());
@@ -97,7 +104,7 @@ fn miri_slice(ctx: &mut Ctx, _args: &Args) {
         codec.decode_arbitrary(ctx, &[], bias, max, "len0");
         codec.decode_arbitrary(ctx, &ex_bytes(), bias, max, "spec-example-2");
     }
-    for _ in 0..ctx.tier.pick(40, 160) {
+    for _ in 0..ctx.tier.pick(12, 120) {
         let len = rng.usize(10);
         let mut data = rng.bytes(len);
         if rng.bool() {
@@ -117,12 +124,68 @@ fn miri_slice(ctx: &mut Ctx, _args: &Args) {
     let t0 = ctx.elapsed_s();
     {
         let mut rs = rangeset::RsRunner::new();
-        rangeset::random::<u32>(&mut rs, ctx, 1, steps / 2);
-        rangeset::random::<u16>(&mut rs, ctx, 1, steps / 2);
-        rangeset::random::<Fixed>(&mut rs, ctx, 1, steps / 2);
+        rangeset::random::<u32>(&mut rs, ctx, 1, steps / 3);
+        rangeset::random::<u16>(&mut rs, ctx, 1, steps / 4);
+        rangeset::random::<Fixed>(&mut rs, ctx, 1, steps / 4);
         rs.tally.flush(ctx, "");
     }
     lap(ctx, "miri:rangeset", t0);
+}
+
+/// One random history of `steps` operations on a pair of `IntSet<T>` (Miri slice).
+fn light<T: Elem>(ctx: &mut Ctx, codec: &mut Codec, steps: usize) {
+    use hist::{Dom, Gen, Limits, Op};
+    let t0 = ctx.elapsed_s();
+    let seed = ctx.seed;
+    let dom = Dom::of::<T>();
+    let lim = Limits { elems_full: 24, window: 3, after_window: 2, ranges_full: 24, rebuild_max: 24 };
+    let mut rng = Rng::derive(seed, &format!("c14-miri-hist-{}", T::NAME), 0);
+    let bases: Vec<u32> = [rng.below(3000) as u32, 65536u32.wrapping_sub(rng.below(1200) as u32), u32::MAX - rng.below(2400) as u32].iter().map(|v| dom.snap_up(*v)).collect();
+    let g = Gen { dom: &dom, bases, wide: false };
+    let a_inv = rng.bool();
+    let seed_vals = [g.value(&mut rng), g.value(&mut rng)];
+    let mut p = hist::start_pair::<T>(&dom, a_inv, &seed_vals);
+    let mut r = Runner::new(ctx);
+    let mut ops: Vec<String> = vec![];
+    for s in 0..steps {
+        let op = g.op(&mut rng);
+        let mut probes: Vec<u32> = vec![*rng.pick(&dom.bounds), g.value(&mut rng)];
+        match &op {
+            Op::Insert(v) | Op::Remove(v) => probes.extend_from_slice(&[*v, dom.snap_up(v.saturating_add(1))]),
+            Op::InsertRange(a, b) | Op::RemoveRange(a, b) => probes.extend_from_slice(&[*a, *b, dom.snap_down(a.saturating_sub(1)), dom.snap_up(b.saturating_add(1))]),
+            _ => {}
+        }
+        if let Some(l) = p.ma.last() {
+            probes.push(l);
+        }
+        ops.push(op.code());
+        let canon = s % 6 == 5 || s + 1 == steps;
+        let oc = ops.clone();
+        let out = r.step(
+            &mut p,
+            &dom,
+            &op,
+            &probes,
+            &lim,
+            canon,
+            &|| format!("miri:{}:seed{}:s{}", T::NAME, seed, s),
+            &|| serde_json::json!({"seed": seed, "step": s, "A_started_inverted": a_inv, "ops": oc}),
+        );
+        if out.failed {
+            break;
+        }
+    }
+    r.tally.add("histories", 1);
+    r.ctx.label("domains_reached", T::NAME);
+    if let Some(a) = (&p.a as &dyn Any).downcast_ref::<IntSet<u32>>() {
+        if !a.is_inverted() && p.ma.len() <= 64 {
+            codec.roundtrip(r.ctx, a, &p.ma, &format!("miri:{}:seed{}:final", T::NAME, seed));
+        }
+    }
+    let mut t = std::mem::take(&mut r.tally);
+    t.flush(r.ctx, &format!("rnd:{}:", T::NAME));
+    drop(r);
+    lap(ctx, &format!("miri:hist:{}", T::NAME), t0);
 }
 
 fn ex_bytes() -> [u8; 7] {
